@@ -255,6 +255,37 @@ def run(F, chk):
                            "paths in that slot are never normalised when the condition is false" % (slot, extra))
                     w = where(trim, cands[0][1])
                 chk.violation("R19.1", "C19/R19.1:%s" % slot, w, msg)
+    # an early `continue` / `break` / `return` inside the per-shape loop of the clean-up makes every cleaning site after it
+    # conditional on not taking it; the accessor has no such exit, so the slots after it are handed out but not cleaned
+    def early_exits(fn):
+        out = []
+        for lp in walk(fn["body"]):
+            if lp["k"] != "RangeFor" or "GetShapes" not in show(lp["range"]):
+                continue
+            order = [id(x) for x in walk(lp["body"])]
+            for x in walk(lp["body"]):
+                if x["k"] in ("Continue", "Break", "Return"):
+                    # not inside a nested loop of its own (a continue of an inner loop is local to it)
+                    inner = [l2 for l2 in walk(lp["body"]) if l2["k"] in ("For", "While", "Do", "RangeFor") and any(y is x for y in walk(l2["body"]))]
+                    if x["k"] != "Return" and inner:
+                        continue
+                    out.append((lp, x, order.index(id(x)), order))
+        return out
+
+    acc_exits = early_exits(acc)
+    for lp, x, pos, order in early_exits(trim):
+        later = []
+        for slot, sites in T.items():
+            for _, n in sites:
+                if id(n) in order and order.index(id(n)) > pos:
+                    later.append(slot)
+        ok = not later or bool(acc_exits)
+        chk.instance(R1, ok=ok, sample={"early_exit_in_shape_loop": x["k"], "slots_after_it": sorted(set(later))[:6]})
+        if not ok:
+            chk.violation("R19.1", "C19/R19.1:early-exit:%s" % sorted(set(later))[0], where(trim, x),
+                          "TrimTexturePaths leaves the iteration for a shape early (`%s`) before it has cleaned %s: for shapes that "
+                          "take this exit those slots are handed out by the accessors but never normalised" % (
+                              x["k"].lower(), ", ".join(sorted(set(later))[:4])))
     chk.floor(R1, 14)
 
     prep = F.fn1("nifly::NifFile::PrepareData")
